@@ -1347,16 +1347,19 @@ def macro_from_definition_string(string):
     Construct a Macro or MacroFunction by parsing a string of the form
     MACRO=expansion.
     """
-    tokens = Lexer(string).tokenize()
-    parser = DirectiveParser(tokens)
+    # The definition ends at the first "="; everything after it is the
+    # macro expansion (which may itself start with "=").
+    definition, equals, value = string.partition("=")
+    parser = DirectiveParser(Lexer(definition).tokenize())
 
     (identifier, args) = parser.macro_definition()
-
-    # Any remaining tokens after an "=" are the macro expansion
     if not parser.eol():
-        parser.match_value(Operator, "=")
-        expansion = parser.tokens[parser.pos :]
-        parser.pos = len(parser.tokens)
+        raise ParseError("Invalid macro definition.")
+
+    if equals:
+        expansion = Lexer(value).tokenize()
+        for token in expansion:
+            token.col += len(definition) + 1
     else:
         expansion = [NumericalConstant("Unknown", None, False, "1")]
 
